@@ -192,18 +192,48 @@ def cargo_kani(scratch, crate, harnesses, extra=(), timeout=3600, jobs=None):
     env["CARGO_NET_OFFLINE"] = "true"
     env["CARGO_TARGET_DIR"] = TARGET
     env.pop("RUSTUP_TOOLCHAIN", None)
-    cmd = ["cargo", "kani", "--no-default-features", "-Z", "function-contracts", "-Z", "stubbing",
-           "--output-format", "terse", "-j", str(jobs or min(16, max(1, len(harnesses))))]
+    cmd = ["cargo", "kani", "--no-default-features", "-Z", "function-contracts", "-Z", "stubbing", "-Z", "unstable-options",
+           "--harness-timeout", os.environ.get("VERIF_HARNESS_TIMEOUT", "900"),
+           "--output-format", "terse", "-j", str(jobs or min(8, max(1, len(harnesses))))]
     for h in harnesses:
         cmd += ["--harness", h]
     cmd += list(extra)
     t0 = time.time()
+    mem_kb = int(os.environ.get("VERIF_CBMC_MEM_GB", "12")) << 20
+    import threading
+    proc = subprocess.Popen(cmd, cwd=os.path.join(scratch, crate), env=env, stdout=subprocess.PIPE, stderr=subprocess.STDOUT, text=True)
+    stop = threading.Event()
+
+    def watchdog():
+        # kill any cbmc below us that grows past the memory budget (the harness then reports no verdict -> exit 2)
+        while not stop.wait(3.0):
+            try:
+                for pid in os.listdir("/proc"):
+                    if not pid.isdigit():
+                        continue
+                    try:
+                        st = open(f"/proc/{pid}/status").read()
+                    except Exception:
+                        continue
+                    if not st.startswith("Name:\tcbmc"):
+                        continue
+                    m = re.search(r"VmRSS:\s+(\d+) kB", st)
+                    if m and int(m.group(1)) > mem_kb:
+                        os.kill(int(pid), 9)
+            except Exception:
+                pass
+    th = threading.Thread(target=watchdog, daemon=True)
+    th.start()
     try:
-        p = subprocess.run(cmd, cwd=os.path.join(scratch, crate), env=env, stdout=subprocess.PIPE, stderr=subprocess.STDOUT,
-                           text=True, timeout=timeout)
-        return p.returncode, p.stdout, time.time() - t0, " ".join(cmd)
-    except subprocess.TimeoutExpired as e:
-        return 124, (e.stdout or "") if isinstance(e.stdout, str) else (e.stdout or b"").decode(errors="replace"), time.time() - t0, " ".join(cmd)
+        out, _ = proc.communicate(timeout=timeout)
+        rc = proc.returncode
+    except subprocess.TimeoutExpired:
+        proc.kill()
+        out, _ = proc.communicate()
+        rc = 124
+    finally:
+        stop.set()
+    return rc, out or "", time.time() - t0, " ".join(cmd)
 
 
 def run_groups(group_names, repo, work, prop, tier, seed):
@@ -315,6 +345,8 @@ def run_one_group(g, scratch, th, prop, tier):
             res["samples"].append(f"kani {h['name']}: {r['ntot']} checks, 0 failed, {r['time']}s"
                                   + (f" — BOUNDED: {h['bounded']}" if is_b else " — loop-free/complete")
                                   + (f" — {h['obligation']}" if h.get("obligation") else ""))
+        elif r["status"] == "fail" and not r["fails"]:
+            res["notes"].append(f"harness {h['name']}: no verdict (CBMC killed / timeout / out of memory): " + r["body"][-300:].strip())
         elif r["status"] == "fail":
             if r["unwind_fail"] and all("unwinding assertion" in f["desc"] for f in r["fails"]):
                 res["notes"].append(f"harness {h['name']}: unwinding assertion failed (bound too small) — undecided")
